@@ -280,6 +280,7 @@ pub const CODE_CORRUPTION_TRUE_UP_EXCEEDS_HEADER_MAX: &str =
     "corruption-true-up-exceeds-header-max";
 pub const CODE_CORRUPTION_TRUNCATION_NO_SECOND_HEADER: &str =
     "corruption-truncation-no-second-header";
+pub const CODE_CORRUPTION_NONZERO_PADDING: &str = "corruption-nonzero-padding";
 pub const CODE_CORRUPTION_LOG_POISONED: &str = "corruption-log-poisoned";
 pub const CODE_CORRUPTION_FSYNC_FAILED: &str = "corruption-fsync-failed";
 pub const CODE_UNPACK_FINAL_BLOCK_OFFSET: &str = "unpack-final-block-offset";
@@ -579,6 +580,12 @@ fn corruption_entry_size_exceeds_max(size: u64, offset: u64) -> SError {
 
 fn corruption_true_up_exceeds_header_max(offset: u64, trued_up: u64) -> SError {
     error(CODE_CORRUPTION_TRUE_UP_EXCEEDS_HEADER_MAX)
+        .with_atom_field(FIELD_OFFSET, offset)
+        .with_atom_field(FIELD_TRUE_UP, trued_up)
+}
+
+fn corruption_nonzero_padding(offset: u64, trued_up: u64) -> SError {
+    error(CODE_CORRUPTION_NONZERO_PADDING)
         .with_atom_field(FIELD_OFFSET, offset)
         .with_atom_field(FIELD_TRUE_UP, trued_up)
 }
